@@ -163,6 +163,19 @@ package meta
 // never exceeds the limit; listWithCursor forgets the object position when it moves on to
 // another container and reports the end exactly when nothing was listed.
 
+// Removing a container leaves the removal mark in the container's bucket whenever it
+// reports success - also when the shard holds nothing of the container yet (objects that
+// arrive later must still be hidden from listings).
+//@ ghost pred containerRemovalMarkWritten() bool
+//@ callrule c06_removal_mark_write in (*DB).InhumeContainer$1
+//@   property C06
+//@   callee (*bbolt.Bucket).Put
+//@   pureeffect
+//@   defines err == nil && samearray(a0, containerGCMarkKey) ==> containerRemovalMarkWritten()
+//@ func (*DB).InhumeContainer$1
+//@   property C06
+//@   ensures [removal_mark_written_whenever_the_removal_succeeds] err == nil ==> containerRemovalMarkWritten()
+
 //@ ghost pred containerRemovalChecked() bool
 //@ ghost pred containerRemoved() bool
 //@ callrule c06_container_removal_mark in selectNFromBucket
